@@ -3200,7 +3200,7 @@ Proof.
         apply child_input_write_leaves_macro_io. }
       destruct Hio as [Hi' Ho'].
       assert (Hchild : synced (kid body j) (set_in_at (kid body j) (nth j vb dv) p k x)).
-      { apply IH; auto. cbn [free_in] in Hf. destruct p as [|r p]; [exact I|].
+      { apply IH; auto. cbn [free_in] in Hf. destruct p as [|r p]; [destruct (kid body j); exact I|].
         rewrite dispatch_spec in Hf. replace (Nat.ltb j (List.length body)) with true in Hf by (symmetry; now apply Nat.ltb_lt).
         exact Hf. }
       apply synced_intro; simpl; rewrite ?upd_nth_length; auto.
@@ -3214,4 +3214,111 @@ Proof.
       * intros j2 Hj2. destruct (Nat.eq_dec j2 j) as [->|Hne].
         -- rewrite nth_upd_same by lia. exact Hchild.
         -- rewrite nth_upd_other by lia. auto.
+Qed.
+
+Lemma synced_set_out_at : forall s v p l x, slinks s -> sranges s -> vshape s v -> synced s v -> free_out s p l ->
+  synced s (fst (set_out_at s v p l x)) /\
+  v_outs (fst (set_out_at s v p l x)) = app_pushes (snd (set_out_at s v p l x)) (v_outs v) /\
+  (forall lx, In lx (snd (set_out_at s v p l x)) -> fst lx < List.length (v_outs v)) /\
+  v_ins (fst (set_out_at s v p l x)) = v_ins v.
+Proof.
+  induction s as [lab i a|lab ps ols recvs kept uirecv body manual order IH] using snode_ind';
+    intros v p l x Hsl Hsr Hv Hsy Hf.
+  - destruct Hf as [-> ->]. destruct v as [ins outs c ui vb]. simpl in *. destruct Hv as [_ HLo].
+    split; [exact I|]. repeat split; auto. intros lx [<-|[]]. simpl. lia.
+  - destruct (vshape_kids _ _ _ _ _ _ _ _ _ _ Hv) as [HLb Hkv].
+    pose proof (slinks_kids _ _ _ _ _ _ _ _ _ Hsl) as Hks.
+    pose proof (sranges_kids _ _ _ _ _ _ _ _ _ Hsr) as Hkr.
+    pose proof (synced_kids _ _ _ _ _ _ _ _ _ _ Hsy) as Hksy.
+    destruct (synced_elim _ _ _ _ _ _ _ _ _ _ Hsy) as (HI & HU & HB).
+    pose proof Hv as (A & B & C & D & _).
+    pose proof Hsl as (Lr & Lk & S0 & S2 & S3 & S4 & S5 & S6 & S7 & _).
+    pose proof Hsr as (_ & RL & R2 & R3 & _).
+    destruct v as [ins outs c ui vb]. simpl in A, B, C, D, HLb, Hkv, Hksy, HI, HU, HB.
+    destruct p as [|[i|j] p].
+    + (* a macro output nothing is linked into *)
+      cbn [free_out] in Hf. destruct Hf as (Hl & Fu & Fb). cbn [set_out_at set_out_here fst snd v_outs v_ins].
+      split; [|repeat split; auto; intros lx [<-|[]]; simpl; lia].
+      apply synced_intro; simpl; auto.
+      * intros i0 o Hi0 Hk0 Ho. rewrite nth_upd_other; auto. intros ->. exact (Fu i0 Hi0 Ho).
+      * intros j0 lo o Hj0 Ho. rewrite nth_upd_other; auto. intros ->. exact (Fb j0 lo Hj0 Ho).
+    + (* the output of an interface node *)
+      cbn [free_out] in Hf. destruct Hf as (-> & -> & Hi). cbn [set_out_at].
+      destruct (nth i ui dv) as [ui_ins ui_outs ui_c ui_u ui_b] eqn:Eu. cbn [set_out_here].
+      destruct (D i Hi) as [D1 D2]. rewrite Eu in D1, D2. simpl in D1, D2.
+      pose proof (apply_pushes_exact [nth i uirecv None] [(0, x)] outs) as Hex.
+      pose proof (apply_pushes_range [nth i uirecv None] [(0, x)] outs (List.length ols)) as Her.
+      destruct (apply_pushes_link [nth i uirecv None] [(0, x)] outs ui_outs) as [Hlk1 Hlk2].
+      { intros l0 l' o Hl Hl'. destruct l0 as [|l0], l' as [|l']; auto; simpl in *; try (destruct l0; discriminate); destruct l'; discriminate. }
+      { intros l0 o Hl. destruct l0 as [|l0]; [|destruct l0; discriminate]. simpl in Hl.
+        exact (eq_ind_r (fun n => o < n) (R2 i o Hl) B). }
+      { intros lx [<-|[]]. simpl. rewrite D2. auto. }
+      { intros l0 o Hl. destruct l0 as [|l0]; [|destruct l0; discriminate]. simpl in Hl.
+        destruct (nth i kept false) eqn:Ek.
+        - specialize (HU i o Hi Ek Hl). rewrite Eu in HU. exact HU.
+        - rewrite (S6 i Hi Ek) in Hl. discriminate. }
+      destruct (apply_pushes [nth i uirecv None] [(0, x)] outs) as [o' q]. cbn [fst snd v_outs v_ins] in *.
+      assert (Hother : forall o, nth i uirecv None <> Some o -> nth o o' None = nth o outs None).
+      { intros o Ho. apply Hlk2. intros l0. destruct l0 as [|l0]; [exact Ho|destruct l0; discriminate]. }
+      split; [|split; [exact Hex|split; [|reflexivity]]].
+      * apply synced_intro; simpl; rewrite ?upd_nth_length; auto.
+        -- intros i0 Hi0. specialize (HI i0 Hi0). destruct (nth i0 recvs ROrphan) as [i'|j k|]; auto.
+           destruct (Nat.eq_dec i' i) as [->|Hne].
+           ++ rewrite nth_upd_same by lia. simpl. rewrite Eu in HI. exact HI.
+           ++ rewrite nth_upd_other by auto. auto.
+        -- intros i0 o Hi0 Hk0 Ho. destruct (Nat.eq_dec i0 i) as [->|Hne].
+           ++ rewrite nth_upd_same by lia. simpl. apply (Hlk1 0 o). exact Ho.
+           ++ rewrite nth_upd_other by auto. rewrite Hother; auto. intros Ho'. apply Hne. eapply S5; eauto.
+        -- intros j lo o Hj Ho. rewrite Hother; auto. intros Ho'. eapply S4; eauto.
+      * intros lx Hin. rewrite B. apply Her; auto.
+        intros l0 o Hl. destruct l0 as [|l0]; [|destruct l0; discriminate]. simpl in Hl. eauto.
+    + (* below a child *)
+      cbn [free_out] in Hf. destruct Hf as [Hj Hf]. rewrite dispatch_spec in Hf.
+      replace (Nat.ltb j (List.length body)) with true in Hf by (symmetry; now apply Nat.ltb_lt). fold (kid body j) in Hf.
+      rewrite set_out_at_body. replace (Nat.ltb j (List.length body)) with true by (symmetry; now apply Nat.ltb_lt).
+      destruct (IH j (nth j vb dv) p l x (Hks j Hj) (Hkr j Hj) (Hkv j Hj) (Hksy j Hj) Hf) as (I1 & I2 & I3 & I4).
+      destruct (set_out_at (kid body j) (nth j vb dv) p l x) as [vj' pp]. cbn [fst snd] in I1, I2, I3, I4.
+      pose proof (apply_pushes_exact (sb_orecv (nth j body dsb)) pp outs) as Hex.
+      pose proof (apply_pushes_range (sb_orecv (nth j body dsb)) pp outs (List.length ols)) as Her.
+      destruct (apply_pushes_link (sb_orecv (nth j body dsb)) pp outs (v_outs (nth j vb dv))) as [Hlk1 Hlk2].
+      { intros l0 l' o Hl Hl'. destruct (S3 j l0 j l' o Hj Hj Hl Hl'); auto. }
+      { intros l0 o Hl. exact (eq_ind_r (fun n => o < n) (R3 j l0 o Hj Hl) B). }
+      { exact I3. }
+      { intros l0 o Hl. apply HB; auto. }
+      rewrite <- I2 in Hlk1.
+      destruct (apply_pushes (sb_orecv (nth j body dsb)) pp outs) as [o' q]. cbn [fst snd v_outs v_ins] in *.
+      split; [|split; [exact Hex|split; [|reflexivity]]].
+      * apply synced_intro; simpl; rewrite ?upd_nth_length; auto.
+        -- intros i0 Hi0. specialize (HI i0 Hi0). destruct (nth i0 recvs ROrphan) as [i'|j2 k2|]; auto.
+           destruct (Nat.eq_dec j2 j) as [->|Hne]; [|now rewrite nth_upd_other by lia].
+           rewrite nth_upd_same by lia. now rewrite I4.
+        -- intros i0 o Hi0 Hk0 Ho. rewrite Hlk2; auto. intros l0 Hl. eapply S4; eauto.
+        -- intros j' lo o Hj' Ho. destruct (Nat.eq_dec j' j) as [->|Hne].
+           ++ rewrite nth_upd_same by lia. apply Hlk1; auto.
+           ++ rewrite nth_upd_other by auto. rewrite Hlk2; auto.
+              intros l0 Hl. destruct (S3 j l0 j' lo o Hj Hj' Hl Ho). congruence.
+        -- intros j' Hj'. destruct (Nat.eq_dec j' j) as [->|Hne].
+           ++ rewrite nth_upd_same by lia. exact I1.
+           ++ rewrite nth_upd_other by auto. auto.
+      * intros lx Hin. rewrite B. apply Her; auto. intros l0 o Hl. eauto.
+Qed.
+
+(* ALWAYS IN AGREEMENT, as long as no update is applied on the receiving side of a value link *)
+Theorem sync_always d l s v0 ops v :
+  build d l = Some (s, v0) -> Forall (free_op s) ops -> apply_ops s v0 ops = Some v -> synced s v.
+Proof.
+  intros Hb. destruct (build_ok d l s v0 Hb) as (Hw & Hc & _).
+  pose proof (wired_slinks d s Hw) as Hsl. pose proof (wired_sranges d s Hw) as Hsr.
+  pose proof (coh_vshape d s v0 Hw Hc) as Hv0. pose proof (coh_synced d s v0 Hw Hc) as Hs0.
+  clear Hc. revert v0 Hb Hv0 Hs0. induction ops as [|o r IH]; intros v0 Hb Hv0 Hs0 Hall H; simpl in H.
+  - inversion H; subst; auto.
+  - destruct (apply_op s v0 o) as [[v1 n]|] eqn:E1; [|discriminate]. inversion Hall; subst.
+    assert (Hv1 : vshape s v1) by (eapply apply_op_vshape; eauto).
+    assert (Hs1 : synced s v1).
+    { destruct o as [p k x|p lo x|]; simpl in E1, H2.
+      - inversion E1; subst. apply synced_set_in_at; auto.
+      - inversion E1; subst. apply synced_set_out_at; auto.
+      - destruct (run s v0) as [[[v2 c2] p2]|] eqn:Er; [|discriminate]. inversion E1; subst.
+        eapply run_synced; eauto. }
+    apply (IH v1); auto.
 Qed.
